@@ -262,7 +262,7 @@ func (x *Engine) inline(fr *Frame, st *State, callee *ssa.Function, args []Val, 
 	if nf.spec != nil {
 		for k := range nf.spec.Loops {
 			if n, err := strconv.Atoi(k); err == nil && n > len(nf.loops) {
-				x.degrade(fmt.Sprintf("the contract of the inlined %s has invariants for loop %d, the function has %d loop(s): loop structure changed since the contract was written", shortKey(nf.spec.Key), n, len(nf.loops)))
+				x.loopMismatch = append(x.loopMismatch, fmt.Sprintf("the contract of the inlined %s has invariants for loop %d, the function has %d loop(s)", shortKey(nf.spec.Key), n, len(nf.loops)))
 			}
 		}
 	}
@@ -272,6 +272,9 @@ func (x *Engine) inline(fr *Frame, st *State, callee *ssa.Function, args []Val, 
 	} else {
 		if len(nf.loops) > 0 && (nf.spec == nil || nf.spec.Loops == nil) {
 			x.notes = append(x.notes, "inlined callee with a loop and no invariant: "+callee.String())
+			if callee.Parent() == nil { // a named helper, not a closure of the function under contract
+				x.inlinedLoop = shortKey(callee.String())
+			}
 		}
 		x.runBody(nf, callee.Blocks[0], st)
 	}
